@@ -29,6 +29,30 @@ func Bytes(offsetSec int) []byte {
 	return b.Bytes()
 }
 
+// BytesSwitch returns a TZif version-1 file of a zone that was at beforeSec
+// (seconds east of UTC) until the instant at (unix seconds, must fit 32 bits)
+// and is at afterSec since then: the shape of a zone with daylight saving
+// time or with a changed standard offset.
+func BytesSwitch(beforeSec, afterSec int, at int64) []byte {
+	var b bytes.Buffer
+	b.WriteString("TZif")
+	b.WriteByte(0)
+	b.Write(make([]byte, 15))
+	for _, v := range []uint32{0, 0, 0, 1, 2, 8} { // isutcnt, isstdcnt, leapcnt, timecnt, typecnt, charcnt
+		binary.Write(&b, binary.BigEndian, v)
+	}
+	binary.Write(&b, binary.BigEndian, int32(at)) // the one transition ...
+	b.WriteByte(1)                                // ... goes to local time type 1
+	binary.Write(&b, binary.BigEndian, int32(beforeSec))
+	b.WriteByte(0)
+	b.WriteByte(0)
+	binary.Write(&b, binary.BigEndian, int32(afterSec))
+	b.WriteByte(0)
+	b.WriteByte(4)
+	b.WriteString("OLD\x00NEW\x00")
+	return b.Bytes()
+}
+
 // File writes the TZif file for the offset (in minutes) into dir and returns its path.
 func File(dir string, offsetMin int) (string, error) {
 	p := filepath.Join(dir, fmt.Sprintf("tz_%d", offsetMin))
